@@ -494,6 +494,8 @@ def run(ctx):
     S += c06corpus.lzip_subjects(rng, quick, 2 if quick else 6)
     S += c06corpus.block_index_subjects(rng, quick, 1 if quick else 6)
     S += c06corpus.first_symbol_subjects(rng, quick)
+    S += c06corpus.init_reject_subjects(rng, quick)
+    S += c06corpus.internal_limit_subjects(rng, quick)
     S += c06corpus.flag_variants(S, rng, 0.25 if quick else 1.0)
     S += c06corpus.encoder_subjects(rng, quick)
     for i, s in enumerate(S):
